@@ -33,7 +33,8 @@ def r1_for(run, b, sends):
     send = sends[0]
     run.touch(b)
     ids = q.live_calls(b, C.SCRU_NEW)
-    inserts = q.live_calls(b, C.INSERT_FRAME)
+    from .store_shared import store_points
+    inserts = [c for (c, es) in store_points(b)]      # Store::insert_frame, or the batch commit of a writer spliced into the publisher
     run.floor("id assignment (scru128::new) in the publishing function", len(ids), 1, b.sp)
     run.floor("Store::insert_frame call in the publishing function", len(inserts), 1, b.sp)
     guards = q.lock_guards(b)
@@ -90,7 +91,8 @@ def r2(run):
     callers = C.callers_of(facts, C.INSERT_FRAME)
     for w in wrappers:
         callers += C.callers_of(facts, w)        # a forwarding wrapper is insert_frame under another name: its callers are audited
-    run.floor("Store::insert_frame call sites", len(callers), 2)
+    spliced_writers = [b0 for b0 in facts.all_bodies() if b0.def_ != C.INSERT_FRAME and q.live_calls(b0, C.BATCH_INSERT)]
+    run.floor("Store::insert_frame call sites", len(callers) + len(spliced_writers), 2)
     allowed = {C.APPEND: "the append critical section", "xs::api::handle_import": "import: the property excepts imports"}
     for w in wrappers:
         allowed[w] = "forwards its own &Frame parameter to insert_frame (its callers are audited instead)"
